@@ -40,6 +40,7 @@ import (
 	"github.com/echovault/sugardb/internal/raft"
 	"github.com/echovault/sugardb/internal/snapshot"
 	"github.com/echovault/sugardb/verifhook"
+	"github.com/tidwall/resp"
 	"io"
 	"log"
 	"net"
@@ -512,8 +513,13 @@ func (server *SugarDB) handleConnection(conn net.Conn) {
 		}
 	}()
 
+	// Commands are read one RESP value at a time from a buffered reader, so that several commands
+	// sent in one write (pipelining) are all answered and a command split across several writes
+	// (or larger than one read buffer) is reassembled.
+	reader := resp.NewReader(r)
+
 	for {
-		message, err := internal.ReadMessage(r)
+		value, _, err := reader.ReadValue()
 		verifhook.Yield("conn.read")
 
 		if err != nil && errors.Is(err, io.EOF) {
@@ -522,6 +528,14 @@ func (server *SugarDB) handleConnection(conn net.Conn) {
 			break
 		}
 
+		if err != nil {
+			// Not a RESP frame: the stream cannot be resynchronised, tell the client and close.
+			log.Println(err)
+			_, _ = w.Write([]byte("-Error protocol error\r\n"))
+			break
+		}
+
+		message, err := value.MarshalRESP()
 		if err != nil {
 			log.Println(err)
 			break
